@@ -409,13 +409,13 @@ class ReferenceEllipsoid:
         -------
         >>> ref = ahrs.utils.ReferenceEllipsoid()
         >>> ref.dynamical_form_factor
-        0.0
+        -4994281547.627967
         """
         m = self.normal_gravity_constant
         e2 = self.first_eccentricity_squared
         es = np.sqrt(self.second_eccentricity_squared)
         if es == 0:
-            return 0.0
+            return -m/3                                             # Limit of J2 as f -> 0 (rotating sphere)
         q0 = 0.5*((1+3/es**2)*np.arctan(es) - 3/es)
         return e2*(1-2*m*es/(15*q0))/3
 
@@ -431,7 +431,7 @@ class ReferenceEllipsoid:
         -------
         >>> ref = ahrs.utils.ReferenceEllipsoid()
         >>> ref.second_degree_zonal_harmonic
-        0.0
+        2233510607.8537974
         """
         return -self.dynamical_form_factor/np.sqrt(5.0)
 
@@ -448,11 +448,11 @@ class ReferenceEllipsoid:
         -------
         >>> ref = ahrs.utils.ReferenceEllipsoid()
         >>> ref.normal_gravity_potential
-        6.6743e-11
+        0.3333333334000763
         """
         es = np.sqrt(self.second_eccentricity_squared)
         if es == 0:
-            return self.gm
+            return self.gm/self.a + self.w**2*self.a**2/3           # arctan(e')/E -> 1/b = 1/a as f -> 0
         return self.gm*np.arctan(es)/self.linear_eccentricity + self.w**2*self.a**2/3
 
     @property
@@ -476,12 +476,12 @@ class ReferenceEllipsoid:
         -------
         >>> ref = ahrs.utils.ReferenceEllipsoid()
         >>> ref.equatorial_normal_gravity
-        14982844642.8839
+        -1.4999999999332572
         """
         m = self.normal_gravity_constant
         es = np.sqrt(self.second_eccentricity_squared)
         if es == 0:
-            return m
+            return self.gm*(1 - 3*m/2)/(self.a*self.b)              # e'q0'/q0 -> 3 as f -> 0 (rotating sphere)
         q0 = 0.5*((1 + 3/es**2)*np.arctan(es) - 3/es)
         q0s = 3*((1 + 1/es**2)*(1 - np.arctan(es)/es)) - 1
         return self.gm * (1 - m - m*es*q0s/(6*q0))/(self.a*self.b)
@@ -507,12 +507,12 @@ class ReferenceEllipsoid:
         -------
         >>> ref = ahrs.utils.ReferenceEllipsoid()
         >>> ref.polar_normal_gravity
-        14982844642.8839
+        1.000000000066743
         """
         m = self.normal_gravity_constant
         es = np.sqrt(self.second_eccentricity_squared)
         if es == 0:
-            return m
+            return self.gm*(1 + m)/self.a**2                        # e'q0'/q0 -> 3 as f -> 0 (rotating sphere)
         q0 = 0.5*((1 + 3/es**2)*np.arctan(es) - 3/es)
         q0s = 3*((1 + 1/es**2)*(1 - np.arctan(es)/es)) - 1
         return self.gm * (1 + m*es*q0s/(3*q0))/self.a**2
@@ -535,7 +535,7 @@ class ReferenceEllipsoid:
         -------
         >>> ref = ahrs.utils.ReferenceEllipsoid()
         >>> ref.mean_normal_gravity
-        14982844642.8839
+        -0.6666666665999238
         """
         e = np.sqrt(self.first_eccentricity_squared)
         gp = self.polar_normal_gravity
